@@ -94,6 +94,25 @@ def run(ctx):
         rows.append({"b": list(buf), "p": p, "n": n, "op": op, "v": enc, "q": pos})
         meta.append((buf, p, n, op))
         ctx.count(("B", buf, p, n, op))
+    # ---- one RawPacketData object read many times, the cursor set forwards and backwards in between (each read is still the function
+    # of buffer, position and width that the specification defines: nothing an earlier read did may matter)
+    for t in range(60 if q else 600):
+        L = rng.choice([2, 3, 4, 8, 9, 16, 40])
+        buf = bytes(rng.getrandbits(8) for _ in range(L))
+        r_ = packets.RawPacketData(buf)
+        for _ in range(12):
+            p = rng.randint(0, 8 * L)
+            n = min(rng.choice([0, 1, 3, 7, 8, 9, 16, 17, 24, 33, 64]), 8 * L - p)
+            op = rng.choice(["int", "int", "bytes"])
+            r_.pos = p
+            try:
+                v = r_.read_as_int(n) if op == "int" else r_.read_as_bytes(n)
+            except Exception as e:  # noqa: BLE001
+                ctx.violation(f"C03/trace/exception/{op}", f"{type(e).__name__}: {e} (object read repeatedly)", {"b": list(buf), "p": p, "n": n, "op": op})
+                break
+            rows.append({"b": list(buf), "p": p, "n": n, "op": op, "v": tables.int_to_bits(v, n) if op == "int" else list(v), "q": r_.pos})
+            meta.append((buf, p, n, op))
+            ctx.count(("C", buf, p, n, op, t))
     rej = tables.validate_lines(ctx, "Trace_Cursor", rows, "reads", jobs=16)
     for idx, clause in rej.items():
         buf, p, n, op = meta[idx]
